@@ -168,8 +168,8 @@ def main():
         broken["coq_log_tail"] = bs.coq_log[-2500:]
     if forbidden:
         broken["forbidden_constructs"] = forbidden
-    if axioms_listed:
-        broken["axioms"] = assumptions_out[-1500:]
+    if axioms_listed or (proof_ok and closed < len(theorems)):
+        broken["axioms"] = "Print Assumptions: %d of %d theorems closed under the global context; %s" % (closed, len(theorems), assumptions_out[-1200:])
     if any_mismatch:
         name, driver, case, m = any_mismatch[0]
         broken["correspondence"] = dict(stream=name, driver=driver, header=case[0], script=case[1][:m["step"] + 1],
